@@ -102,7 +102,7 @@ P = {
    "DESIGN.md §5 C18"),
  "C20": (True, "vsched", "model_checking",
    "stateless model checking of schedules: preemption-bounded (and, for the smallest harness, unbounded) DFS with prefix replay over all interleavings of 2-3 real threads at hooked scheduling points (acquire/release of every Mutex/RwLock and every atomic operation of the crates - the check links a copy of the working tree whose std::sync paths are redirected to the verif-hooks shim - plus inside the critical section, between template elements, inside filter chains, around API calls); each execution compared with the sequential baseline",
-   "For fourteen harnesses (2-4 threads; first touch of lazily compiled partials, valid and broken; stateful constructs; failing renders; dynamic arguments with every renderable executed twice; interrupts with text after them; two concurrent parses of never-seen text, of different texts, and of a 64-deep nested template) on shared Parser/Template/PartialStore objects built with the lazy compiler, every interleaving up to the preemption bound is executed on the real code: every call must return exactly its sequential result, no interleaving may deadlock or panic, and a sequential re-run on the used objects must still equal the baseline. The first and every failing schedule are replayed twice (determinism); a thread not reaching its next point in 120 s, or a replay divergence, is a machinery failure, never a verdict.",
+   "For sixteen harnesses (2-4 threads; first touch of lazily compiled partials, valid and broken; stateful constructs; failing renders; dynamic arguments with every renderable executed twice; interrupts with text after them; two concurrent parses of never-seen text, of different texts, and of a 64-deep nested template; a dynamic render name stored under both spellings; a partial that includes itself 64 levels deep) on shared Parser/Template/PartialStore objects built with the lazy compiler, every interleaving up to the preemption bound is executed on the real code: every call must return exactly its sequential result, no interleaving may deadlock or panic, and a sequential re-run on the used objects must still equal the baseline. The first and every failing schedule are replayed twice (determinism); a thread not reaching its next point in 120 s, or a replay divergence, is a machinery failure, never a verdict.",
    "sequentially consistent interleavings only; scheduling points = every std::sync Mutex/RwLock/atomic of the three crates (textual redirection, reported in the evidence; falls back to the committed lazy-cache hook if the redirected copy does not compile) and the public plugin API; Arc/LazyLock/thread_local are not points; an auxiliary free-running stress run is labelled sampling and not claimed as coverage",
    "DESIGN.md §5 C20"),
 }
